@@ -118,7 +118,7 @@ def sibling_runs(ctx):
     fails = []
     n = 0
     pyc = samples.dirty_pyc()
-    for kind in ("file", "missing", "symlink-out", "symlink-in", "dir", "fifo", "file-mtime0"):
+    for kind in ("file", "missing", "symlink-out", "symlink-in", "dir", "fifo", "file-mtime0", "file-mtime-negative", "file-mtime-1ns"):
         for check in (False, True):
             for name in ("mod.cpython-312.pyc", "mod.pyc", "mod.opt-1.pyc", "mod.cpython-312.opt-1.pyc", "mod.cpython-312.opt-2.pyc", "LINKED"):
                 # LINKED: the pyc has a second name (as after hard-link de-duplication of optimisation levels): it is rewritten in place
@@ -134,8 +134,9 @@ def sibling_runs(ctx):
                     t.add_file("outside/real.py", b"print(1)\n", mtime_ns=1_650_000_000_000_000_000)
                     t.add_file("d/__pycache__/" + name, pyc, mtime_ns=1_650_000_000_000_000_000)
                     py = "d/__pycache__/mod.py"
-                    if kind in ("file", "file-mtime0"):
-                        t.add_file(py, b"print(1)\n", mtime_ns=0 if kind == "file-mtime0" else 1_650_000_000_000_000_000)
+                    if kind.startswith("file"):
+                        # (a source whose own modification time lies before 1970, or one nanosecond after it, is reset like any other)
+                        t.add_file(py, b"print(1)\n", mtime_ns={"file-mtime0": 0, "file-mtime-negative": -86_400_000_000_000, "file-mtime-1ns": 1}.get(kind, 1_650_000_000_000_000_000))
                     elif kind == "symlink-out":
                         t.symlink("../../outside/real.py", py)
                     elif kind == "symlink-in":
@@ -161,12 +162,12 @@ def sibling_runs(ctx):
                         allowed.add("d/__pycache__/" + name)
                         if linked:
                             allowed.add("d/__pycache__/mod.cpython-312.opt-1.pyc")
-                        if kind == "file":
+                        if kind in ("file", "file-mtime-negative", "file-mtime-1ns"):
                             allowed.add(py)
                     d = [x for x in fh.snap_equal(before, after) if x.split(":")[0] not in allowed]
                     if d:
                         fails.append(("sibling-collateral", "%s: something other than the pyc and its regular sibling source changed: %s" % (label, "; ".join(d[:3])), label))
-                    if not check and kind == "file":
+                    if not check and kind in ("file", "file-mtime-negative", "file-mtime-1ns"):
                         if after[py]["mtime_ns"] != 0 or after[py]["data"] != before[py]["data"] or after[py]["ino"] != before[py]["ino"]:
                             fails.append(("sibling-mtime", "%s: the source file's mtime is %d (expected 0, content and inode unchanged)" % (label, after[py]["mtime_ns"]), label))
                     if not check:
